@@ -65,6 +65,7 @@ var gvcCases = []gvcCase{
 	{"C10", "package-guard", "@@\n@@\n package foo\n\n-bar()\n+baz()\n", "package foo_test\nfunc f() { bar() }\n", ""},
 	{"C10", "package-guard-holds", "@@\n@@\n package foo\n\n-bar()\n+baz()\n", "package foo\nfunc f() { bar() }\n", "package foo\nfunc f() { baz() }\n"},
 	// ---- C11: imports ------------------------------------------------------------------------------------
+	{"C03 C05 C11", "added-import-leaves-other-declarations-alone", "@@\n@@\n+import \"fmt\"\n\n-func hello() {\n-  println(\"hi\")\n-}\n+func hello() {\n+  fmt.Println(\"hi\")\n+}\n", "package a\n\nvar before = 1\n\nfunc hello() {\n\tprintln(\"hi\")\n}\n\nfunc other() {}\n", "package a\n\nimport \"fmt\"\n\nvar before = 1\n\nfunc hello() { fmt.Println(\"hi\") }\n\nfunc other() {}\n"},
 	{"C11", "matched-import-still-used-in-a-chain-is-kept", "@@\n@@\n import \"x/cfg\"\n\n-cfg.Load()\n+load()\n", "package a\nimport \"x/cfg\"\nfunc f() { cfg.Load(); _ = cfg.Defaults.Timeout }\n", "package a\nimport \"x/cfg\"\nfunc f() { load(); _ = cfg.Defaults.Timeout }\n"},
 }
 
